@@ -29,11 +29,10 @@ S_FUNCS = ["ParentReadyState::{default,genesis,mark_skip,is_skip_certified,mark_
 
 # harnesses of the quick tier (everything else: thorough only)
 QUICK = {
-    "c07_hist_w1_s3_s3", "c07_hist_w1_s3_s2_s1", "c07_hist_w1_s1_s2_s3", "c07_hist_x4_s3_s4_s5", "c07_hist_x4_s4_s3_s2",
-    "c07_hist_w2_s7_s6_s5", "c07_hist_x8_s8_s4_s7", "c07_hist_2b_s3_s3_s3",
-    "c07_step_nf_s3", "c07_step_nf_s6", "c07_step_skip_r4_s7", "c07_step_prune",
+    "c07_hist_w1_s3_s3", "c07_hist_w1_s3_s2_s1", "c07_hist_x4_s4_s3_s2", "c07_hist_w2_s7_s6_s5", "c07_hist_x8_s8_s4_s7", "c07_hist_2b_s3_s3_s3",
+    "c07_step_nf_s3", "c07_step_nf_s6", "c07_step_skip_r5_s7", "c07_step_prune",
     "c07_fin_s4_p3", "c07_fin_s3_p2_two_windows", "c07_prune_r4_late3", "c07_prune_r5_then67",
-    "c07_wait_before_w4", "c07_wait_after_w4", "c07_commute_s2_s3", "c07_commute_s3_s4",
+    "c07_wait_before_w4", "c07_wait_after_w4", "c07_commute_s2_s3",
 }
 
 FAMILIES = {
@@ -73,16 +72,30 @@ def _harnesses():
 
 SPEC = {
     "property": "C07",
-    "level_text": "TODO",
-    "level_note": "TODO",
+    "level_text": "Bounded symbolic verification of the real ParentReadyTracker / ParentReadyState against a reference function R written from the property statement (the ready parents of a window start s are the certified blocks (t, b), t < s, with every slot strictly between t and s skipped). Two complementary families are decided by the solver. (1) Inductive step: for EVERY ghost G over slots 1..8 (all 2^8 skip patterns, any <= 3 certified blocks, any pruning root consistent with a finalized root slot) the tracker is put into the state F(G) it holds after being told G, ONE mark_notar_fallback / mark_skipped / prune is applied, and the post-state is shown to be F(G'), parents_ready(s) = R(G', s) as a duplicate-free set for s in {4, 8, 12}, and the returned announcements exactly R(G') \\ R(G), each once, with no reachable panic (the duplicate assertion of add_to_ready). With the base case (fresh tracker = F(genesis)) this covers every order of arrival within the bound. (2) Bounded histories on the fresh tracker (2-3 operations of symbolic kind after a concrete prefix; real list orders) for: both operations across the window boundaries 4 and 8, two competing blocks in one slot, handle_finalization events, prune followed by late calls below the root, a waiter registered before / after readiness, and two operations in both orders on two trackers (same ready sets, same set of announcements). Counterexamples are replayed on the real std HashMap, smallvec::SmallVec and tokio oneshot channel.",
+    "level_note": "Bounds: slots 0..11, window starts 4, 8, 12; 1 block per slot (2 in the 2b harnesses), all blocks carry one of two hash constants; step family: at most 3 certified blocks besides genesis (lists of at most 5 entries), list order ascending or descending only; histories: 2-3 symbolic-kind operations. Under Kani the HashMap, SmallVec and oneshot channel inside the two files are replaced by stand-ins (slot-indexed array map, packed bounded list, one-cell channel; harness/C07/c07_coll.rs); native replay uses the real ones. handle_finalization is checked against its documented contract (at most one announcement, of the highest window), which is narrower than 'every pair is announced'. Assumes (as the pool guarantees) that prune is called with a finalized slot whose block was marked before and which never receives a skip certificate, and one waiter per slot. Trusts Kani, CBMC, CaDiCaL.",
     "overlays": [COLL, {"src": "C07/kani_c07.rs", "dest": "src/consensus/pool/parent_ready_tracker/kani_c07.rs", "decl_in": PT, "decl": "mod kani_c07;"}],
     "redirects": REDIRECTS,
     "functions": ["consensus::pool::parent_ready_tracker::ParentReadyTracker::{default,mark_notar_fallback,mark_skipped,handle_finalization,parents_ready,wait_for_parent_ready,prune,slot_state}",
                   "consensus::pool::parent_ready_tracker::parent_ready_state::ParentReadyState::{default,genesis,mark_skip,is_skip_certified,mark_notar_fallback,notar_fallback_blocks,add_to_ready,ready_block_ids,wait_for_parent_ready}"],
-    "bounds": "TODO",
-    "explanation": "TODO",
-    "assumptions": [],
-    "trusted_base": [],
-    "outside": [],
+    "bounds": "slots 0..11 (operations on 1..11), window starts 4/8/12, 1-2 blocks per slot; step family: all skip patterns over 8 slots x any <= 3 certified blocks x root, one operation; history families: concrete prefix + 2-3 operations of symbolic kind",
+    "explanation": "Ghost G = (certified blocks per slot incl. genesis, skipped slots, root) holds what the tracker accepted; marks for slots below the root are ignored by tracker and ghost alike. R(G, s) is a 10-line loop written from the property statement. Every harness compares, after every operation, parents_ready(s) as a multiset with R(G', s) (missing / unjustified / duplicate entries are separate checks) and the returned announcements with R(G') \\ R(G); history harnesses also check at the end that every pair was announced exactly once iff it is ready; step harnesses compare the whole per-slot state (skip flag, certified blocks, ready list, absence of state below the root) with F(G'). Decided by Kani -> CBMC -> CaDiCaL over all symbolic inputs within the bound; every harness carries reachability witnesses (an announcement happens, several at once, nothing is announced, a late call is ignored, a waiter is woken / kept waiting).",
+    "assumptions": [
+        "prune(root) is called only with a finalized slot: a block of that slot has been marked (handle_finalization runs before Pool::prune) and no skip certificate for the root slot is ever delivered (a finalized slot cannot be skip-certified with < 20 % Byzantine stake); without this a parent reaching a later window through a skipped root would be lost",
+        "marks for slots below the root are ignored (documented contract of prune): the reference function is evaluated over the accepted marks only",
+        "one waiter per window start at a time (a second wait_for_parent_ready for a slot with a pending waiter hits assert!(maybe_waiter.is_none()); the block producer asks once per window)",
+        "handle_finalization returns at most one of the pairs that became ready, one of the highest window (documented: 'keep only highest slot ParentReady'); the other pairs are recorded and served by the query but never announced",
+        "at most 1 (2b: 2) certified blocks per slot, all slots' blocks carry the same two hash constants (block identity = slot + constant index)",
+        "under Kani: slot-indexed array map for HashMap<Slot, _>, packed bounded list for SmallVec (elements restricted to slots < 64 and the two hash constants, anything else is reported as unsupported), one-cell stand-in for tokio::sync::oneshot (send never fails: receivers are kept alive); native replay runs the real containers",
+    ],
+    "trusted_base": ["reference function Ghost::ready / state function build() in kani_c07.rs", "stand-ins in harness/C07/c07_coll.rs (HashMap, SmallVec incl. the order-preserving packing, oneshot)", "--max-field-sensitivity-array-size 16 (CBMC option; 32-byte hashes kept as whole arrays)"],
+    "outside": [
+        "histories longer than one step from F(G) in which the ready lists are in an order other than ascending / descending (the tracker's results do not depend on list order except the minimum returned to a waiter, which is checked on real orders in the wait harnesses)",
+        "more than 3 certified blocks besides genesis in the step family, more than 2 competing blocks per slot, slots >= 12",
+        "hash mix-ups between different slots (all blocks share two hash constants)",
+        "a waiter whose receiver was dropped (send error path, warn!), two waiters for one slot, wait_for_parent_ready for a slot below the root (re-creates pruned state; not part of the property)",
+        "PoolImpl::add_cert / handle_finalization / prune call order (async, tokio mpsc), FinalityTracker producing the events (C08)",
+        "pairs suppressed by handle_finalization are not announced at all: the literal reading 'every ready pair is announced' does not hold for them (they belong to windows made moot by the finalization)",
+    ],
     "harnesses": _harnesses(),
 }
